@@ -109,6 +109,28 @@ def _loss(cfg, cx):
             return cx.deviates(g.reshape(r.shape), r)
         cx.equal(f"{nm}: entry i = loss of entry i alone" if how == "entry" else f"{nm} = mean of the single-entry losses", got, ref,
                  replay=replay, key=f"loss:{nm}:{ckey}")
+    # reduce="max": the per-step losses of ONE entry (the one with the largest total), never a mixture of several entries
+    if steps > 1:
+        # per-step losses become let-abstracted atoms (shared by the batched and the single-entry runs, which compute the same
+        # polynomials), so that the selection by largest total is a linear query
+        old_thr, I.DEF_THRESHOLD = I.DEF_THRESHOLD, 4
+        rows = [np.asarray(I.sym_call(lambda x, y, i=i: ml.timestep_smse_loss(one(x, i), one(y, i), steps, reduce=None)[0], X, Y).a, dtype=object).reshape(-1)
+                for i in range(B)]
+        tot = [sum(list(r), S.ZERO) for r in rows]
+        gmax = np.asarray(I.sym_call(lambda x, y: ml.timestep_smse_loss(mk(x), mk(y), steps, reduce="max"), X, Y).a, dtype=object).reshape(-1)
+        I.DEF_THRESHOLD = old_thr
+        for i in range(B):
+            assum = [S.lt(tot[j], tot[i]) for j in range(B) if j != i]
+
+            def replay_max(vals, bvals, i=i):
+                x = {kp: jnp.asarray(cx.conc(v, vals)) for kp, v in X.items()}
+                y = {kp: jnp.asarray(cx.conc(v, vals)) for kp, v in Y.items()}
+                per = np.asarray(ml.timestep_smse_loss(mk(x), mk(y), steps, reduce=None))
+                w = int(np.argmax(per.sum(axis=1)))
+                return cx.deviates(np.asarray(ml.timestep_smse_loss(mk(x), mk(y), steps, reduce="max")),
+                                   np.asarray(ml.timestep_smse_loss(one(x, w), one(y, w), steps, reduce=None))[0])
+            cx.equal(f"timestep_smse_loss(max): the losses of entry {i} alone when its total is the largest", gmax, rows[i], assumptions=assum,
+                     replay=replay_max, key=f"loss:max:{i}:{ckey}")
     got = I.sym_call(fns["smse_loss(reduce=None)"][0], X, Y)
     cx.canary("canary[per-entry losses reversed]", got, np.asarray(got.a, dtype=object)[::-1].copy())
 
